@@ -3,3 +3,4 @@ import ZbossModel.Props.C06
 #print axioms Zboss.Rx.C06_handler_irrelevant
 #print axioms Zboss.Rx.C06_ack_wellformed
 #print axioms Zboss.Rx.C06_per_frame
+#print axioms Zboss.Rx.C06_source_exprs
